@@ -2,6 +2,7 @@
 from __future__ import annotations
 
 import copy
+import pickle
 import json
 from typing import Any, Dict, List, Optional, Sequence, Tuple
 
@@ -77,7 +78,7 @@ def step_event(tid, bp, call: int, fork: bool = False) -> Dict[str, Any]:
     returns the event.  Refused calls that left the projection unchanged are
     logged compactly (same=True)."""
     before = project(bp)
-    target = copy.deepcopy(bp) if fork else bp
+    target = (copy.deepcopy(bp) if call % 2 else pickle.loads(pickle.dumps(bp))) if fork else bp
     res = take(target, call)
     after = project(target)
     e: Dict[str, Any] = {'tid': tid, 'ev': 'fork' if fork else 'take',
@@ -112,7 +113,19 @@ def history_trace(tid, dealer: int, vul: int, hist: Sequence[int], *,
             if not (c < len(av) and av[c] == 1):
                 evs.append(step_event(tid, bp, c))
 
-    for c in hist:
+    # the auction may be carried on by a copy of the object (a snapshot that
+    # is restored, an object sent to another process): every 3rd history is
+    # continued on a deep copy or on a pickle round trip from some point on
+    hsum = sum(map(ord, str(tid))) + len(hist)
+    swap_at = (hsum // 3) % (len(hist) + 1) if hsum % 3 == 0 and len(hist) > 0 else -1
+    for k_, c in enumerate(hist):
+        if k_ == swap_at:
+            try:
+                bp = copy.deepcopy(bp) if hsum % 2 else pickle.loads(pickle.dumps(bp))
+            except Exception as ex:  # noqa
+                evs.append({'tid': tid, 'ev': 'take', 'call': c,
+                            'res': f'copy-failed:{type(ex).__name__}', 'same': True})
+                return evs
         if illegal_at_each_prefix and not bp.has_done():
             illegal_offers()
         evs.append(step_event(tid, bp, c))
@@ -423,8 +436,32 @@ def run(pid: str, tier: str) -> int:
             jobs.append(('prefix', f'n{k}', d, k % 4, h))
             k += 1
 
-    traces = pmap(_trace_job, jobs, chunk=64)
-    events: List[Dict[str, Any]] = []
+    # two auctions driven by two threads at the same time: the first use of the
+    # class in the process is suspended at code locations of its take_bid /
+    # construction while another auction runs (process-wide tables, caches)
+    from . import race
+
+    def make_calls():
+        def mk(tag, d, v, h):
+            def call():
+                return history_trace(tag, d, v, h, after_end=True)
+            return call
+        return (mk('ra', 1, 2, [0, DBL, RDBL, PASS, 7, PASS, PASS, DBL, PASS, PASS, PASS]),
+                mk('rb', 3, 1, [PASS, 4, PASS, 9, DBL, PASS, PASS, RDBL, 34, PASS, DBL, PASS, PASS, PASS]))
+    race_events = race.run_race(chk, 'two auctions', make_calls, 160)
+
+    # the same library in an interpreter that strips assert statements (-O)
+    from .core import run_optimized
+    ojobs = [(k_, 'O' + t_, d_, v_, h_) for (k_, t_, d_, v_, h_) in jobs
+             if isinstance(k_, str) and (t_.startswith('n') or t_.startswith('long')
+                                         or (t_.startswith('r') and len(t_) < (3 if quick else 4)))]
+    otraces = run_optimized('harness.auction', '_trace_job', ojobs)
+    chk.extra['histories_under_python_O'] = len(ojobs)
+    jobs = jobs + ojobs
+
+    traces = pmap(_trace_job, jobs[:len(jobs) - len(ojobs)], chunk=64) + otraces
+    events: List[Dict[str, Any]] = list(race_events)
+    chk.evaluations += sum(1 for e in race_events if e['ev'] != 'new')
     for (kind, tid, d, v, h), evs in zip(jobs, traces):
         events.extend(evs)
         chk.evaluations += sum(1 for e in evs if e['ev'] != 'new')
